@@ -1,3 +1,4 @@
+import Proofs.Corollaries
 import Proofs.MatchSound
 import Proofs.EmbedSound
 /-! C13: whatever signal an untyped scalar value is given, the source denotes the same (`retype_nodeVal`,
